@@ -19,6 +19,14 @@ TABLE={ # id: (property, demo file, package dir, -run pattern, needs)
  "C16-a":("C16","c16_demo_test.go","transports/http/endpoints/api/headers","TestC16","an orphan branch root in a commonAncestor request"),
  "C17-a":("C17","c17_demo_test.go","database","TestC17","an exported longest chain longer than one import batch (500 headers)"),
  "C19-a":("C19","c19_seed_demo_test.go","domains","TestC19SeedDemo","difficulty bits with exponent byte >= 0x23 and non-zero mantissa"),
+ "C18-a":("C18","zz_seed_demo_test.go","transports/p2p","TestSeedDemo","a second ban of a host whose ban entry is still in the map (expired but not yet dropped, or still running)"),
+ "C12-b":("C12","zz_seed_demo_test.go","notification","TestSeedDemo","a delivery that ends in a transport error (connection refused / timeout), not an HTTP reply"),
+ "C15-a":("C15","zz_seed_demo_test.go","service","TestSeedDemo","two concurrent Add calls extending the same tip, the second one's height check falling between the first one's decision (under the lock) and its insert (outside it)"),
+ "C01-b":("C01","zz_seed_demo_test.go","service","TestSeedDemo","a header forking off a longest-chain block at least two below the tip that alone outweighs the tip (non-uniform bits)"),
+ "C04-b":("C04","zz_seed_demo_test.go","service","TestSeedDemo","a by-height window that contains competing headers below its top height (more rows than heights), real SQL"),
+ "C03-b":("C03","zz_seed_demo_test.go","database","TestSeedDemo","a stored header whose own work is >= 2^64 (any realistic mainnet difficulty), read back through the SQL repository"),
+ "C06-a":("C06","zz_seed_demo_test.go","transports/p2p/p2psync","TestSeedDemo","the sync peer disconnects while still ahead of the tip and the random choice of the next sync peer lands on it again"),
+ "C16-b":("C16","zz_seed_demo_test.go","transports/http/endpoints/api/headers","TestSeedDemo","GET byHeight with a negative numeric count on the real SQL repository"),
 }
 ENV=dict(os.environ,GOFLAGS="-mod=mod",GOPROXY="off")
 def run(cmd,cwd,timeout=1500):
